@@ -629,7 +629,10 @@ func VerifyLinkSignatureThesholds(layout Layout,
 		// Store all good links for a step
 		stepsMetadataVerified[step.Name] = linksPerStepVerified
 
-		if len(linksPerStepVerified) < step.Threshold {
+		// Independent of the threshold (which may be malformed, i.e. zero or
+		// negative) at least one good link is needed for a step: the
+		// verification routines that follow panic otherwise.
+		if len(linksPerStepVerified) < step.Threshold || len(linksPerStepVerified) < 1 {
 			linksPerStep := stepsMetadata[step.Name]
 			return nil, fmt.Errorf("step '%s' requires '%d' link metadata file(s)."+
 				" '%d' out of '%d' available link(s) have a valid signature from an"+
